@@ -1449,6 +1449,10 @@ func genC17(g *G, sc *Scenario, tier string, seed uint64) {
 		cfg["batchSize"] = 1 // (the one rejection is then that of the entity alone)
 	}
 	sc.Ops = append(sc.Ops, Op{K: "tick", S: "job1", M: spec})
+	if !killed && jobType == "incremental" && g.P(0.25) {
+		// a later tick that finds nothing new at all: a success, whatever the run before it met
+		sc.Ops = append(sc.Ops, Op{K: "tick", S: "job1", M: map[string]any{}})
+	}
 	if !killed && g.P(0.3) {
 		// a later tick with nothing rejected: must succeed and must not re-run
 		sc.Ops = append(sc.Ops, Op{K: "batch", DS: "srcA", Ents: []Ent{{"id": MkE + "later", "props": map[string]any{}, "refs": map[string]any{}}}})
